@@ -13,7 +13,7 @@ From Coq Require Import List NArith ZArith Bool.
 Import ListNotations.
 Require Import MV.C11.Model MV.C11.Spec MV.C11.Exec MV.C11.ProofsFraming MV.C11.ProofsInv
         MV.C11.ProofsState MV.C11.ProofsCount MV.C11.ProofsOrder MV.C11.ProofsWire MV.C11.ProofsReflect
-        MV.C11.ProofsStream MV.C11.ProofsMain.
+        MV.C11.ProofsStream MV.C11.ProofsBook MV.C11.ProofsMain MV.C11.ProofsSpecOk.
 From Coq Require Import Permutation.
 Open Scope N_scope.
 
@@ -105,8 +105,9 @@ Proof. exact metric_frame_roundtrip. Qed.
 
 (* reflection of the stream clause: a stream with the shape established by C11_stream_integrity
    and C11_prefix_metadata_then_metrics_in_order passes the boolean check of Spec.v *)
-Theorem C11_stream_log_ok_reflect : forall x ML KL ML1 KL1 s,
-  s = concat (map enc (map mbody ML1 ++ map kbody KL1)) ->
+Theorem C11_stream_log_ok_reflect : forall x ML KL ML1 KL1 s p,
+  s = concat (map enc (map mbody ML1 ++ map kbody KL1)) ++ p ->
+  tail_ok p -> (x_stay x = true -> p = []) ->
   Forall item_ok KL1 ->
   Subseq ML1 ML -> Subseq KL1 KL ->
   Permutation (map dm ML) (x_log_metas x) ->
@@ -124,17 +125,25 @@ Theorem C11_stream_ok_whole_frames : forall x s, stream_ok x s = true -> x_stay 
   exists bodies es, split_frames s = (bodies, []) /\ decode_all bodies = Some es.
 Proof. exact stream_ok_whole. Qed.
 
-(* full statement not proved: forall c, <the log of c is a run of the model that ends with every
-   staying client connected and flushed, and harness_ok c = true> -> spec_ok c (run_case c) = true.
-   Proved: the start-up and counter clauses (below); the stream clause as a reflection lemma
-   (C11_stream_log_ok_reflect) over the Prop-level shape given by C11_stream_integrity and
-   C11_prefix_metadata_then_metrics_in_order.  Missing: the bookkeeping that identifies
-   [ms ++ wake_frames evs2] of the model with the lists ML / KL and expect_of's log view
-   (log_metas = the model's metadata map at the accept, up to permutation), and the streams of
-   clients the model has removed. *)
-Theorem C11_spec_ok_on_model_partial : forall c,
-  o_served (run_case c) = true /\ obs_ok (o_obs (run_case c)) = true.
-Proof. exact spec_ok_on_model_partial. Qed.
+(* The model's own run passes spec_ok.  [case_wf c]: the recorded events are a run of the model
+   (not stuck), every wake-up frame is an encoded metric (ev_ok; follows from the recorded inputs by
+   C11_recorded_events_ok), the run ends quiet (every client marked as staying is flushed), and every
+   client entry of the case names the accept that created it (token = 2 + number of accepts before
+   it), is STILL CONNECTED in the model's final state (the named hypothesis [still_connected] inside
+   client_wf: streams of clients the model has moved to `gone` are not covered) and was discarded
+   for exactly when the log says so.  [harness_ok c]: the log agrees with the harness's describes and
+   emissions (a predicate on the case alone). *)
+Theorem C11_spec_ok_on_model : forall c, case_wf c -> harness_ok c = true -> spec_ok c (run_case c) = true.
+Proof. exact spec_ok_on_model. Qed.
+
+Theorem C11_recorded_events_ok : forall c, Forall cevent_ok (c_cevents c) -> Forall ev_ok (c_events c).
+Proof. exact recorded_events_ok. Qed.
+
+(* the hypotheses of C11_spec_ok_on_model (still_connected included) hold on a concrete case with
+   metadata, two short-write steps and a metric *)
+Theorem C11_spec_ok_on_model_example :
+  case_wf ex_case /\ harness_ok ex_case = true /\ spec_ok ex_case (run_case ex_case) = true.
+Proof. exact (conj ex_case_wf (conj ex_case_harness ex_case_spec_ok)). Qed.
 
 Theorem C11_example_run :
   Forall ev_wf ex_events /\
